@@ -6,7 +6,11 @@ d="$root/wt-$p/SEED"
 read -r dest pkg run < <(python3 - "$d/meta.json" <<'PY'
 import json,sys
 m=json.load(open(sys.argv[1]))
-print(m.get('demo_dest','?'), m.get('demo_pkg','?'), m.get('demo_run','?'))
+import re
+run=m.get('demo_run','?').strip()
+run=re.sub(r'^-run\s+','',run)          # some agents write the flag as well
+run=run.split()[0].strip("'\"") if run else '?'   # and some append remarks
+print(m.get('demo_dest','?'), m.get('demo_pkg','?'), run)
 PY
 )
 demo=$(basename "$dest").txt
